@@ -31,7 +31,7 @@ IDX_KINDS_QUICK = ["y-abs", "y-abs-rho", "y-rel", "y-rel-model", "y-cov", "y-cor
 HIST_KINDS = ["y-abs", "y-abs-rho", "y-rel", "y-rel-model", "y-cov", "y-cor", "y-abs-model"]
 
 CANON = {
-    "xy": ["chi2:nodet", "chi2", "chi2_fast", "chi2_pointwise", "chi2_no_errors", "chi2_covariance", "nll-gaussian", "nllr-gaussian", "nll", "nllr-poisson", "gauss_approximation", "gauss_approximation_pointwise"],
+    "xy": ["chi2:nodet", "chi2:axes_y", "chi2", "chi2_fast", "chi2_pointwise", "chi2_no_errors", "chi2_covariance", "nll-gaussian", "nllr-gaussian", "nll", "nllr-poisson", "gauss_approximation", "gauss_approximation_pointwise"],
     "indexed": ["chi2:nodet", "chi2", "chi2_fast", "chi2_pointwise", "chi2_no_errors", "chi2_covariance", "nll-gaussian", "nllr-gaussian", "nll", "nllr-poisson", "gauss_approximation", "gauss_approximation_covariance_fast", "gauss_approximation_pointwise"],
     "hist": ["chi2:nodet", "chi2", "chi2_fast", "chi2_pointwise", "nll-gaussian", "nll", "nllr", "gauss_approximation", "gauss_approximation_pointwise"],
     "unbinned": ["nll"],
@@ -49,6 +49,8 @@ def all_ids(ftype):
     ids = sorted(T)
     if ftype in ("xy", "indexed", "hist"):
         ids.append("chi2:nodet")  # cost function object built with add_determinant_cost=False
+    if ftype == "xy":
+        ids.append("chi2:axes_y")  # cost function object built with axes_to_use="y"
     return ids
 
 
@@ -129,6 +131,11 @@ def _plans(ftype, cid, tier):
     return plans
 
 
+def _cost_cov(cid):
+    """the covariance the cost function is documented to use: the xy cost object built with axes_to_use='y' takes the y sources only"""
+    return "y_total" if cid == "chi2:axes_y" else "total"
+
+
 def _pd(M):
     try:
         w = np.linalg.eigvalsh(M)
@@ -180,7 +187,7 @@ def run_one(res, ftype, model, cid, v, plan, collect=None):
         covs = w.ref_covs() if ftype != "unbinned" else None
         m = w.ref_model()
         fam, var = ref.cost_family(cid) if ftype != "unbinned" else ("nll", "u")
-        if needs and (w.n_enabled() == 0 or not _pd(covs["total"])):
+        if needs and (w.n_enabled() == 0 or not _pd(covs[_cost_cov(cid)])):
             continue
         if fam == "ga" and not _pd(covs["total"] + np.diag(m)):
             continue
@@ -237,7 +244,7 @@ def _post_fit_phase(res, w, ftype, model, cid, hist, sl, dis, cons):
             return out
         covs = w.ref_covs()
         m = np.asarray(w.ref_model(), dtype=float)
-        if ref.needs_sources(cid) and not w.implicit_no_errors and not _pd(covs["total"]):
+        if ref.needs_sources(cid) and not w.implicit_no_errors and not _pd(covs[_cost_cov(cid)]):
             return out
         if fam == "ga" and not _pd(covs["total"] + np.diag(m)):
             return out
